@@ -34,6 +34,7 @@ import (
 	"github.com/postalsys/muti-metroo/internal/config"
 	"github.com/postalsys/muti-metroo/internal/logging"
 	"github.com/postalsys/muti-metroo/internal/sleep"
+	"github.com/postalsys/muti-metroo/verifharness/scx"
 	"github.com/postalsys/muti-metroo/verifharness/vh"
 )
 
@@ -68,17 +69,17 @@ type obs struct {
 }
 
 type world struct {
-	mu        sync.Mutex
-	log       []int
-	results   []int
-	kinds     []string // requester kinds
-	inCb      int      // requester currently inside OnSleep/OnWake (-1 none)
-	reqGate   chan struct{}
-	pollGates []chan struct{}
-	pollOpen  []bool
+	mu         sync.Mutex
+	log        []int
+	results    []int
+	kinds      []string // requester kinds
+	inCb       int      // requester currently inside OnSleep/OnWake (-1 none)
+	reqGate    chan struct{}
+	pollGates  []chan struct{}
+	pollOpen   []bool
 	enterGates []chan struct{}
 	enterOpen  []bool
-	starting  int // requester being started (its goroutine id for the callback)
+	starting   int // requester being started (its goroutine id for the callback)
 }
 
 func readPersist(path string) (int, bool) {
@@ -298,11 +299,11 @@ func runCase(t *testing.T, dir string, cs *caseSpec) (out []obs, done []action, 
 // Returns the sleep state and whether the peer manager is paused (the mark
 // DisconnectAll leaves) before and after the held goroutine is let go.
 type agentObs struct {
-	Reached     bool `json:"reached_scheduling_point"`
-	StateAfter  int  `json:"state_after_wake"`
-	PausedAtWake bool `json:"paused_when_wake_completed"`
-	PausedEnd   bool `json:"paused_at_end"`
-	WakeErr     string `json:"wake_err,omitempty"`
+	Reached      bool   `json:"reached_scheduling_point"`
+	StateAfter   int    `json:"state_after_wake"`
+	PausedAtWake bool   `json:"paused_when_wake_completed"`
+	PausedEnd    bool   `json:"paused_at_end"`
+	WakeErr      string `json:"wake_err,omitempty"`
 }
 
 func agentDoPoll(t *testing.T, dir string, wakeDuringWindow bool) (o agentObs, panicked string) {
@@ -380,9 +381,9 @@ var edgeOK = map[[2]int]bool{{0, 1}: true, {1, 2}: true, {2, 1}: true, {1, 0}: t
 // monitor: the text of C30 on the observations (no model).
 func monitor(c *vh.Ctx, cs *caseSpec, out []obs) {
 	prev := obs{}
-	pollStart := []int{}   // action index at which poll k (in start order) passed its first critical section
-	entered := []int{}     // start-order index of the e-th poll that entered OnPoll
-	wakeDone := []int{}    // action indices at which a Wake() completed successfully
+	pollStart := []int{} // action index at which poll k (in start order) passed its first critical section
+	entered := []int{}   // start-order index of the e-th poll that entered OnPoll
+	wakeDone := []int{}  // action indices at which a Wake() completed successfully
 	reqKind := []string{}
 	for i, o := range out {
 		a := cs.Actions[i]
@@ -667,10 +668,5 @@ func TestVerif(t *testing.T) {
 		}
 	}
 
-	var sb strings.Builder
-	sb.WriteString("From Coq Require Import List NArith.\nFrom MM Require Import Model.SleepSM.\nImport ListNotations.\n")
-	sb.WriteString("Definition cases : list mcase := \n" + vh.CoqList(coq) + ".\n")
-	sb.WriteString("Definition M := Eval vm_compute in mismatches cases.\nPrint M.\n")
-	c.WriteCasesV("cases.v", sb.String())
+	c.WriteCasesV("cases.v", scx.CasesV("From Coq Require Import List NArith.\nFrom MM Require Import Model.SleepSM.\nImport ListNotations.\n", "mcase", "mmismatches_from", coq, 1500))
 }
-
